@@ -124,6 +124,7 @@ func checkC07(c *Ctx) {
 		}})
 	st.Wait()
 	checkC07Traces(c)
+	checkC07LongLoops(c)
 	ncore := 150
 	if c.Thorough() {
 		ncore = 2500
@@ -133,4 +134,34 @@ func checkC07(c *Ctx) {
 	c.Set("bounds", map[string]any{"MaxNodes": maxNodes, "ForInVariants": fiv, "Fuel": fuel, "tlc_depth": res.Depth})
 	c.Set("rule", "every statement tree with <= MaxNodes nodes (if/if-else/block/while/for/for-in over array,object,string/call + print,break,continue,return,next,exit leaves where the parser accepts them) x every condition-outcome sequence with <= Fuel TRUE outcomes; each terminated behaviour replayed in two renderings (all braces / minimal braces) and compared line by line; non-trivial = at least one condition evaluated or more than the three rule headers printed")
 	c.Set("checker_cmd", "tlc MC_EvalCtl (JqEval machine; invariants TypeOK FrameBalance BaseAtRuleStart DepthBounded NoEscape OutcomeLegal SigConsumed; action properties StopFreezesOutput DoneIsFinal); replay via lang.EvalProgram")
+}
+
+// Long loops driven by data: a loop runs exactly as many times as its condition is true, also tens of
+// thousands of times (the machine's LoopTest / ForPost cycle has no counter of its own).
+func checkC07LongLoops(c *Ctx) {
+	pool := c.Pool()
+	var jobs []Job
+	var want []string
+	for _, n := range []int{9999, 10001, 10002, 10003, 25000, 70000} {
+		for _, form := range []string{
+			"BEGIN { k = 0 }\n{ for (i = 0; i < $.n; i++) { k++ }\n  print \"done\", k }\nEND { print \"end\" }\n",
+			"{ k = $.n\n  while (k > 0) { k-- }\n  print \"done\", $.n - k }\nEND { print \"end\" }\n",
+			"function run(m) { t = 0\n  for (i = 0; i < m; i++) { if (i % 2) { continue }\n    t++ }\n  return t * 2 - m % 2 }\n{ for (z in [1]) { print \"done\", run($.n) } }\nEND { print \"end\" }\n",
+			"{ k = 0\n  for (i = 0; i < 300; i++) { for (j = 0; j < 100; j++) { k++ } }\n  w = 0\n  while (w < $.n) { w++ }\n  print \"done\", w + k - 30000 }\nEND { print \"end\" }\n"} {
+			jobs = append(jobs, Job{Kind: "run", Prog: []byte(form), Files: []FileIn{{Name: "in.json", Data: []byte(fmt.Sprintf("[{\"n\": %d}]", n))}}, Budget: 5_000_000})
+			want = append(want, fmt.Sprintf("done %d\nend\n", n))
+		}
+	}
+	pool.Map(jobs, func(i int, r Result) {
+		if r.Class == "budget" || r.Class == "timeout" {
+			c.Count("inconclusive", 1)
+			return
+		}
+		if r.Class != "ok" || string(r.Stdout) != want[i] {
+			c.Violation("long-loop", map[string]any{"program": string(jobs[i].Prog), "input": string(jobs[i].Files[0].Data), "expected_stdout": want[i],
+				"got_class": r.Class, "got_err": r.ErrMsg, "got_stdout": firstN(string(r.Stdout), 300), "why": "a loop must run as many times as its condition holds, however many that is"})
+			return
+		}
+		c.Case("longloop:"+string(jobs[i].Prog)+string(jobs[i].Files[0].Data), true)
+	})
 }
